@@ -26,6 +26,7 @@ import (
 	"github.com/youchainhq/go-youchain/bls"
 	"github.com/youchainhq/go-youchain/common"
 	"github.com/youchainhq/go-youchain/consensus/ucon"
+	"github.com/youchainhq/go-youchain/core"
 	"github.com/youchainhq/go-youchain/core/state"
 	"github.com/youchainhq/go-youchain/core/types"
 	"github.com/youchainhq/go-youchain/crypto"
@@ -2028,7 +2029,7 @@ func runGen(seed uint64, n int, outDir, corpusDir, variant string) {
 		res.Count(hc.Kind + ":" + hverdictName(hc.Verdict))
 		if len(hb.parents) > 0 && hc.Kind == "header" {
 			res.Count("header:with_batch_prefix")
-			if len(hb.parents) >= roundBack {
+			if uint64(len(hb.parents)) >= roundBack {
 				res.Count("header:version_header_inside_batch")
 			}
 		}
@@ -2163,6 +2164,23 @@ func runTables(out string) {
 		names = append(names, "versions_"+nt.name)
 	}
 	sb.WriteString("Definition all_versions : list (N * cparams * N * N) := " + strings.Join(names, " ++ ") + ".\n")
+	// look-back distances of every version (which height each kind of look-back reads)
+	var lbs []string
+	for _, nt := range nets {
+		params.InitNetworkId(nt.id)
+		var vs []int
+		for v := range params.Versions {
+			vs = append(vs, int(v))
+		}
+		sort.Ints(vs)
+		for _, v := range vs {
+			yp := params.Versions[params.YouVersion(v)]
+			lbs = append(lbs, fmt.Sprintf("(%d, %d, %d)", v, yp.StakeLookBack, yp.SeedLookBack))
+		}
+	}
+	sb.WriteString("(* (version, StakeLookBack, SeedLookBack) of every version of the three nets *)\n")
+	sb.WriteString("Definition go_lookbacks : list (N * N * N) := " + vf.List(lbs) + ".\n")
+	sb.WriteString(fmt.Sprintf("Definition go_protocol_round_back : N := %d.\n", core.VerifC01ProtocolRoundBack()))
 	sb.WriteString(fmt.Sprintf("Definition go_cht_frequency : N := %d.\n", params.ACoCHTFrequency))
 	sb.WriteString(fmt.Sprintf("Definition go_steps : N * N * N := (%d, %d, %d).\n", ucon.UConStepProposal, uint32(ucon.Precommit), uint32(ucon.Certificate)))
 	vf.WriteIfChanged(out, sb.String())
